@@ -1519,3 +1519,120 @@ func rootObj(info *types.Info, e ast.Expr) types.Object {
 		}
 	}
 }
+
+// ---------------------------------------------------------------------------
+// C10.contract-checks-unconditional
+
+func init() {
+	register(&Rule{
+		ID: "C10.contract-checks-unconditional", Prop: "C10", Also: []string{"C04", "C11"}, Floor: 4, Controls: 0,
+		Doc: "in returnTypeForValues and Call every rejection of an argument (a return of an ArgError: null not allowed, dynamic not allowed, wrong type) is independent of the argument's marks: it is neither nested in a branch whose condition consults marks (IsMarked / ContainsMarked / AllowMarked) nor reached only after such a condition was decided — marking an argument must not switch a contract check off",
+		Run: runContractChecksUnconditional,
+	})
+}
+
+func mentionsMarks(info *types.Info, e ast.Expr) bool {
+	found := false
+	ast.Inspect(e, func(n ast.Node) bool {
+		switch x := n.(type) {
+		case *ast.CallExpr:
+			switch funcKey(callee(info, x)) {
+			case "cty.Value.IsMarked", "cty.Value.ContainsMarked", "cty.Value.HasMark", "cty.Value.HasSameMarks":
+				found = true
+			}
+		case *ast.SelectorExpr:
+			if x.Sel.Name == "AllowMarked" {
+				found = true
+			}
+		}
+		return !found
+	})
+	return found
+}
+
+func runContractChecksUnconditional(rr *RuleRun) {
+	c := rr.Ctx
+	pkg := "cty/function"
+	info := c.Info(pkg)
+	for _, name := range []string{"Function.returnTypeForValues", "Function.Call"} {
+		fd := rr.MustDecl(pkg, name)
+		if fd == nil {
+			continue
+		}
+		cf := c.CondFacts(fd.Body, info, nil)
+		inspectNoLit(fd.Body, func(n ast.Node) bool {
+			ret, ok := n.(*ast.ReturnStmt)
+			if !ok {
+				return true
+			}
+			isArgErr := false
+			for _, r := range ret.Results {
+				if call, ok := ast.Unparen(r).(*ast.CallExpr); ok && isCall(info, call, pkg+".NewArgErrorf", pkg+".NewArgError") {
+					isArgErr = true
+				}
+			}
+			if !isArgErr {
+				return true
+			}
+			key := fmt.Sprintf("%s.%s/%s", pkg, name, trunc(exprStr(ret.Results[len(ret.Results)-1]), 60))
+			// (a) nested in a branch on marks
+			var child ast.Node = ret
+			for p := c.Parent(ret); p != nil && p != ast.Node(fd.Body); child, p = p, c.Parent(p) {
+				is, ok := p.(*ast.IfStmt)
+				if !ok || child == ast.Node(is.Cond) || child == ast.Node(is.Init) {
+					continue
+				}
+				if mentionsMarks(info, is.Cond) {
+					rr.Violation(key, ret.Pos(), fmt.Sprintf("this rejection is nested in a branch of 'if %s': whether the argument is marked decides whether the contract check runs, so a marked argument bypasses (or alone triggers) it", trunc(exprStr(is.Cond), 60)))
+					return true
+				}
+			}
+			// (b) reached only after a decision on marks
+			if cf.HoldsAt(ret, func(cond ast.Expr, truth bool) bool { return mentionsMarks(info, cond) }) {
+				rr.Violation(key, ret.Pos(), "this rejection is reached only on paths that decided a condition on the argument's marks: marking an argument changes whether the contract check runs")
+				return true
+			}
+			rr.OK(key, ret.Pos(), "independent of the argument's marks")
+			return true
+		})
+	}
+}
+
+// ---------------------------------------------------------------------------
+// C04.set-hoists-deep
+
+func init() {
+	register(&Rule{
+		ID: "C04.set-hoists-deep", Prop: "C04", Also: []string{"C06"}, Floor: 1, Controls: 0,
+		Doc: "SetVal moves the marks of its members to the set by deep unmarking only: the member stored into the set's payload is the result of UnmarkDeep (or the member itself where UnmarkDeep found no marks), never the result of a shallow Unmark, and every mark set handed to WithMarks comes out of UnmarkDeep — a shallowly unmarked member keeps nested marks inside the set",
+		Run: runSetHoistsDeep,
+	})
+}
+
+func runSetHoistsDeep(rr *RuleRun) {
+	c := rr.Ctx
+	info := c.Info("cty")
+	fd := rr.MustDecl("cty", "SetVal")
+	if fd == nil {
+		return
+	}
+	deep, shallow := 0, 0
+	inspectNoLit(fd.Body, func(n ast.Node) bool {
+		call, ok := n.(*ast.CallExpr)
+		if !ok {
+			return true
+		}
+		switch {
+		case isCall(info, call, "cty.Value.UnmarkDeep", "cty.Value.UnmarkDeepWithPaths"):
+			deep++
+			rr.OK("cty.SetVal/"+exprStr(call), call.Pos(), "deep unmarking of a member")
+		case isCall(info, call, "cty.Value.Unmark", "cty.Value.unmarkForce"):
+			shallow++
+			rr.Violation("cty.SetVal/"+exprStr(call), call.Pos(), "a member is unmarked only shallowly on this path: marks on its nested members stay inside the set (a set holds no marked members at any depth, and the hash of such a member panics)")
+		}
+		return true
+	})
+	if deep == 0 && shallow == 0 {
+		rr.Violation("cty.SetVal/no-unmark", fd.Pos(), "SetVal does not unmark its members deeply: marks on members are neither moved to the set nor removed from the payload")
+	}
+}
